@@ -62,6 +62,16 @@ Import ListNotations.
 Close Scope Z_scope.
 Open Scope nat_scope.
 
+(* The model is parametrized by the decisions the translators read off the source.  Every theorem below is
+   about the variant [true true true]; the generated switches of C06's subject (swap condition of
+   ReleaseReadAndReuse, Gen/SwitchC06.v; sticky fallback of Stream.Flush, Gen/SwitchC07.v) select exactly it.
+   The sweep condition (last parameter) is C08's subject and stays a variable here. *)
+Theorem C06_model_is_the_source_variant : forall sweepc,
+  dstep_gen sw_reuse_needs_len0 sw_reuse_needs_one_slice sw_fallback_sticky sweepc = dstep_gen true true true sweepc
+  /\ flush_gen sw_fallback_sticky = flush.
+Proof. intros sweepc. split; reflexivity. Qed.
+Print Assumptions C06_model_is_the_source_variant.
+
 Definition C06_full : Prop := forall cfg ops, cfg_ok cfg -> agrees (init_sys cfg) spec0 ops.
 
 Theorem C06 : C06_full.
@@ -160,7 +170,7 @@ Print Assumptions C06_reuse_keeps_unread.
 
 Theorem C06_reuse_without_len_test_loses_unread :
   let bs := map Z.of_nat (seq 0 10) in
-  let run st ops := fold_left (fun D o => match D with Some D => match dstep false true D o with Ok (_, D') => Some D' | _ => None end | None => None end) ops (Some st) in
+  let run st ops := fold_left (fun D o => match D with Some D => match dstep_gen false true true true D o with Ok (_, D') => Some D' | _ => None end | None => None end) ops (Some st) in
   match run (init_dsys [(16, 4)]) [DOp false (WBytes bs); DOp false WFlush; DOp false (RBytes 4); DReuse false] with
   | Some D => content (d_mem D) (h_rcv (d_0 D)) = [] /\ len (h_snd (d_1 D)) = 6%Z
   | None => False
